@@ -48,6 +48,9 @@ of the rewrites below is unsound.  Rewrites (each applied to BOTH sides):
   R27 `if a: X elif b: Y` with X ending in continue / break / return / raise  ->  `if a: X` followed by `if b: Y`
   R28 `t = E` directly followed by the only statement that reads t, a simple statement without any other call:
       E is substituted even when it has effects (the evaluation order is unchanged)
+  R29 an if-chain that binds a local to a literal in every arm (else included), followed by statements that are the
+      only readers of that local: the following statements are copied into each arm with the literal substituted
+      (tail duplication), then literal comparisons are folded and `if True/False` pruned
   R14 `if a: X` directly followed by `if b: X` where X ends in continue / break / return / raise, and
       `if a: X elif b: X`:  ->  `if a or b: X`
 
@@ -507,6 +510,43 @@ class _LightFold(ast.NodeTransformer):
         return n
 
 
+class _PruneConst(ast.NodeTransformer):
+    """Literal comparisons folded; `if <literal>:` replaced by the branch taken."""
+    def visit_Compare(self, n):
+        self.generic_visit(n)
+        if len(n.ops) == 1 and isinstance(n.left, ast.Constant) and isinstance(n.comparators[0], ast.Constant):
+            a, b = n.left.value, n.comparators[0].value
+            try:
+                r = {ast.Eq: a == b, ast.NotEq: a != b}.get(type(n.ops[0]))
+                if r is None and type(a) in (int, float) and type(b) in (int, float):
+                    r = {ast.Lt: a < b, ast.LtE: a <= b, ast.Gt: a > b, ast.GtE: a >= b}.get(type(n.ops[0]))
+            except TypeError:
+                r = None
+            if r is not None:
+                return ast.Constant(bool(r))
+        return n
+
+    def visit_If(self, n):
+        n.test = self.visit(n.test)
+        n.body = self._blk(n.body)
+        n.orelse = self._blk(n.orelse)
+        if isinstance(n.test, ast.Constant) and isinstance(n.test.value, bool):
+            taken = n.body if n.test.value else n.orelse
+            return taken if taken else None
+        if not n.body:
+            n.body = [ast.Pass()]
+        return n
+
+    def _blk(self, blk):
+        out = []
+        for st in blk:
+            r = self.visit(st)
+            if r is None:
+                continue
+            out.extend(r if isinstance(r, list) else [r])
+        return out
+
+
 def _index_canon(e):
     """Canonical form of integer index arithmetic (R17)."""
     if isinstance(e, ast.Tuple):
@@ -770,10 +810,74 @@ class Normaliser:
             out.extend(self.stmt(s))
         out = self.split_elif_after_exit(out)
         out = self.expand_listcomp(out)
+        out = self.sink_selector(out)
         if not self.directional:
             out = self.defaults_to_ifelse(out)
             out = self.flatten_ifs(out)
             out = self.merge_ifs(out)
+        return out
+
+    def sink_selector(self, stmts):
+        out = list(stmts)
+        i = 0
+        while i < len(out):
+            s = out[i]
+            if isinstance(s, ast.If):
+                arms, c = [], s
+                complete = False
+                while True:
+                    arms.append(c.body)
+                    if len(c.orelse) == 1 and isinstance(c.orelse[0], ast.If):
+                        c = c.orelse[0]
+                    else:
+                        if c.orelse:
+                            arms.append(c.orelse)
+                            complete = True
+                        break
+                if complete and len(arms) >= 2:
+                    # names bound to a literal as the LAST statement-level binding in every arm
+                    cand = None
+                    for a in arms:
+                        lits = {}
+                        for st in a:
+                            if isinstance(st, ast.Assign) and len(st.targets) == 1 and isinstance(st.targets[0], ast.Name) and isinstance(st.value, ast.Constant) \
+                                    and type(st.value.value) in (int, bool, str):
+                                lits[st.targets[0].id] = st
+                        cand = set(lits) if cand is None else cand & set(lits)
+                    for x in sorted(cand or ()):
+                        if not self.is_new(x):
+                            continue
+                        # x is bound nowhere else in the arms, read nowhere in the chain, and every read is in the run right after
+                        chain_reads = sum(1 for n in ast.walk(s) if isinstance(n, ast.Name) and n.id == x and isinstance(n.ctx, ast.Load))
+                        chain_stores = sum(1 for n in ast.walk(s) if isinstance(n, ast.Name) and n.id == x and isinstance(n.ctx, ast.Store))
+                        if chain_reads or chain_stores != len(arms):
+                            continue
+                        j = i + 1
+                        while j < len(out) and _reads(out[j], x) and not any(isinstance(n, ast.Name) and n.id == x and isinstance(n.ctx, ast.Store) for n in ast.walk(out[j])):
+                            j += 1
+                        tail = out[i + 1:j]
+                        if not tail:
+                            continue
+                        later = any(isinstance(n, ast.Name) and n.id == x for st in out[j:] for n in ast.walk(st))
+                        if later or not self.opts.get('selector_ok', lambda nm: True)(x):
+                            continue
+                        if any(isinstance(n, (ast.FunctionDef, ast.Lambda)) for st in tail for n in ast.walk(st)):
+                            continue
+                        for a in arms:
+                            lit = [st for st in a if isinstance(st, ast.Assign) and len(st.targets) == 1 and isinstance(st.targets[0], ast.Name) and st.targets[0].id == x][-1]
+                            a.remove(lit)
+                            for st in tail:
+                                c2 = _Subst({x: lit.value}).visit(copy.deepcopy(st))
+                                c2 = _PruneConst().visit(_LightFold().visit(c2))
+                                if c2 is None:
+                                    continue
+                                a.extend(c2 if isinstance(c2, list) else [c2])
+                            if not a:
+                                a.append(ast.Pass())
+                        del out[i + 1:j]
+                        # re-normalise the arms (they may now contain nested ifs / passes)
+                        break
+            i += 1
         return out
 
     def split_elif_after_exit(self, stmts):
